@@ -3,7 +3,7 @@
    Definitions only. *)
 From Coq Require Import List NArith ZArith Bool.
 From PyTrie.Base Require Import Bytes Result Nibbles Rlp Keccak.
-From PyTrie.Hexary Require Import Raw Tree.
+From PyTrie.Hexary Require Import Raw Tree TreeTraverse.
 Import ListNotations.
 
 Definition to_top (e : bytes * option bytes) : top :=
@@ -25,3 +25,30 @@ Definition c01_T_run (c : list (bytes * option bytes) * list bytes) : obs :=
   let '(ops, probes) := c in
   let t := trun (map to_top ops) in
   OL (map (fun k => OB (tget t (bytes_to_nibbles k))) probes).
+
+(* C08 specification: what a traversal must describe at each path, computed from the
+   mapping alone through the Yellow-Paper tree *)
+Definition tann_obs (a : tann) : obs :=
+  OL [OL (map onibs (a_segs a)); OB (a_value a); onibs (a_suffix a); oN (ntype_N (a_type a))].
+
+Definition c08_spec_run (c : list (bytes * bytes) * list nibbles) : obs :=
+  let '(m, paths) := c in
+  let t := yp_tree (map (fun e : bytes * bytes => (bytes_to_nibbles (fst e), snd e)) m) in
+  OL (map (fun p => match ttraverse t p with
+                    | TAt n => OL [OZ 0%Z; tann_obs (annotate n)]
+                    | TPartial reached n tail =>
+                        OL [OZ 1%Z; tann_obs (annotate (simulated n tail)); onibs reached; onibs tail;
+                            tann_obs (annotate n)]
+                    end) paths).
+
+(* C10 specification: items in key order and strict successors, from the mapping alone *)
+Definition c10_spec_run (c : list (bytes * bytes) * list (option bytes)) : obs :=
+  let '(m, queries) := c in
+  let J := map (fun e : bytes * bytes => (bytes_to_nibbles (fst e), snd e)) m in
+  let t := yp_tree J in
+  OL [OL (map (fun e : nibbles * bytes => OL [onibs (fst e); OB (snd e)]) (titems t));
+      OL (map (fun q => match least_above J (option_map bytes_to_nibbles q) with
+                        | Some k => onibs k
+                        | None => ONone
+                        end) queries);
+      OL (map (fun e : nibbles * node => OL [onibs (fst e); tann_obs (annotate (snd e))]) (tnodes t []))].
